@@ -551,7 +551,9 @@ pub fn validate(call: &Call, out: &Outcome) -> Vec<(&'static str, String)> {
                 bad.push(("C14.range", format!("uncompact accepted target resolution {r} and returned {} ids", v.len())));
             } else if input.iter().any(|i| alias_resolution(*i) > *r) {
                 bad.push(("C14.range", format!("uncompact expanded a cell finer than the target {r}")));
-            } else if let Some(b) = v.iter().find(|k| !input.contains(k) && canon_res(**k) != Some(*r)) {
+            } else if let Some(b) = v.iter().find(|k| canon_res(**k) != Some(*r)) {
+                // (until repair F9 an element already at the target resolution was echoed as written, and this clause exempted
+                // outputs that were inputs; the exemption went with the defect)
                 bad.push(("C14.invalid_result", format!("uncompact(.., {r}) produced {:#018x}: not a canonical id of resolution {r}", b)));
             } else if input.iter().all(|i| is_canonical(*i)) {
                 let total: u128 = input.iter().map(|i| fanout(decode(*i).unwrap().res, *r)).sum();
